@@ -412,3 +412,4 @@ def run(ctx):
     _run_rules(ctx)
     from .. import boundaries
     boundaries.check(ctx, 'C03.RB', 'C03')
+    boundaries.check_amounts(ctx, 'C03.RA', 'C03')
